@@ -611,6 +611,81 @@ def main():
     except Exception as ex:  # noqa: BLE001
         res.fail("hyperelastic law-parameter scenario raises", f"{type(ex).__name__}: {str(ex)[:150]}", dict(sim="HyperElastic"))
 
+    # ---------------- who observes whom ----------------
+    # every parameter holder reachable from the model must notify the simulation; the dependency table of Model/Sources.lean and
+    # the registrations extracted from the constructors (Gen/C14/Observers.lean) are compared with the running code
+    from tools.harness import _wiring as W
+    wlines, wexpect = [], []
+    for cname, mk in W.builders().items():
+        try:
+            simu = mk()
+            ans = driver.ask([f"wiring {cname}"])
+            if ans is None or "deps=" not in ans[0]:
+                res.disagree("wiring table", f"the model has no wiring for simulation class {cname}: {ans}")
+                continue
+            deps = ans[0].split("deps=")[1].split(" ")[0].split(";")
+            observed = ans[0].split("observed=")[1].split(";")
+            res.count(f"wiring:{cname}")
+            dep_objs = {e: W.evaluate(e, simu) for e in deps if e != "mesh"}
+            # (1) the extracted registrations really are observers at run time
+            for e in observed:
+                for o in W.evaluate(e, simu):
+                    res.case(("wiring", cname, e, "registered"))
+                    if simu not in o.observers:
+                        res.disagree("wiring table", f"{cname}: the constructor registers with '{e}' but the simulation is not among the observers of that object")
+            # (2) every parameter holder reachable from the model is in the dependency table, and is observed
+            hs = W.holders(simu)
+            for path, o in hs:
+                role = next((e for e, objs in dep_objs.items() if any(o is x for x in objs)), None)
+                res.case(("wiring", cname, path, "holder"))
+                if role is None:
+                    res.disagree("wiring table", f"{cname}: parameter holder {path} ({type(o).__name__}) is reachable from the model but missing from the dependency table of Model/Sources.lean")
+            # (3) histories: [read, assign a parameter of one holder, read, ...] — the flag against the model, and a lowered flag
+            #     never sits on matrices that a forced rebuild changes
+            ops_m, flags = [], []
+            mats = W.read(simu, True)
+            ops_m.append("read")
+            flags.append(bool(simu.needUpdate))
+            targets = [(next((e for e, objs in dep_objs.items() if any(o is x for x in objs)), None), path, o) for path, o in hs]
+            targets = [(role, path, o) for role, path, o in targets if role is not None and W.float_params(o)]
+            targets.append(("mesh", "mesh", simu.mesh))
+            rng.shuffle(targets)
+            for role, path, o in targets:
+                if role == "mesh":
+                    o.Translate(0.125, 0.0, 0.0)
+                    what = "mesh.Translate(0.125)"
+                else:
+                    pn = rng.choice(W.float_params(o))
+                    W.assign(o, pn)
+                    what = f"{path}.{pn} *= 1.0625"
+                ops_m += ["set", role]
+                flags.append(bool(simu.needUpdate))
+                res.case(("wiring", cname, path, "assign"))
+                if not simu.needUpdate:
+                    # the flag stays down: are the matrices of a read now those of a forced rebuild?
+                    got = W.read(simu, False)
+                    simu.Need_Update()
+                    forced = W.read(simu, False)
+                    bad = [f"{pt}:{n}" for pt in got for n, a, b in zip("KCMF", got[pt], forced[pt]) if a.shape != b.shape or np.abs(a - b).max() > 1e-9 * (1e-300 + np.abs(b).max())]
+                    if bad:
+                        res.fail(f"stale matrices: the simulation is not notified sim={cname} holder={role}",
+                                 f"[read, {what}, read]: the flag stays down and {bad} differ from what the same simulation assembles once it is told to rebuild", dict(sim=cname, holder=path, operation=what))
+                W.read(simu, False)
+                ops_m.append("read")
+                flags.append(bool(simu.needUpdate))
+            wlines.append(f"hist {cname} " + " ".join(ops_m))
+            wexpect.append((cname, list(ops_m), flags))
+        except Exception as ex:  # noqa: BLE001
+            res.fail(f"wiring scenario raises sim={cname}", f"{type(ex).__name__}: {str(ex)[:150]}", dict(sim=cname))
+    wans = driver.ask(wlines)
+    if wans is None:
+        res.disagree("driver", "model driver does not run (wiring histories): " + getattr(driver, "error", "")[:300])
+    else:
+        for (cname, ops_m, flags), a in zip(wexpect, wans):
+            res.traces += 1
+            if [t == "1" for t in a.split()] != flags:
+                res.disagree("wiring flags", dict(sim=cname, ops=ops_m, model=a, impl=["1" if f else "0" for f in flags]))
+
     answers = driver.ask(lines)
     if answers is None:
         res.disagree("driver", "model driver does not run: " + getattr(driver, "error", "")[:400])
